@@ -517,13 +517,15 @@ Qed.
 
 Lemma constructed_wf e : constructed e -> wf_err e.
 Proof.
-  intros H. destruct H as [id msg fn Hfn|id etype msg p|id desc p Hok|id desc p Hln|id desc p start Hok|id msg c];
-    (split; [cbn; auto using fname_of_not_bad|cbn [e_ctx new_pybtex_error new_syntax_error new_token_required new_token_required_bib new_aux_error]]).
+  intros H. destruct H as [id msg fn Hfn|id etype msg p|id desc p Hok|id desc p Hln|id desc p start Hok|id msg c|id etype msg fn|id desc text fn pos];
+    (split; [cbn; auto using fname_of_not_bad|cbn [e_ctx new_pybtex_error new_syntax_error new_token_required new_token_required_bib new_aux_error new_syntax_error_nl new_token_required_nl]]).
   - exact I.
   - exact I.
   - now apply scan_state_wf.
   - exact Hln.
   - destruct Hok as (s & -> & H1 & H2). now apply bib_ctx_wellformed.
+  - exact I.
+  - exact I.
   - exact I.
 Qed.
 
@@ -628,4 +630,25 @@ Proof.
     + destruct H as [-> _]. repeat split; try congruence; try discriminate.
       intros [_ H]; discriminate H.
     + congruence.
+Qed.
+
+(* errors of a line-less scanner (NameFormatParser): whatever Scanner.required raises there is a
+   constructed error; it renders without a context line and without ' in line n' *)
+Lemma lineless_required_constructed text lit fn id e :
+  lineless_required text lit fn id = inr e -> constructed e.
+Proof.
+  unfold lineless_required. destruct text as [|c t].
+  - intros H; injection H as <-. apply C_syntax_nl.
+  - destruct (startswith (c :: t) lit); [discriminate|]. intros H; injection H as <-. apply C_token_nl.
+Qed.
+
+Lemma lineless_token_required_renders id desc text fn pos p :
+  format_error (new_token_required_nl id desc text fn pos) p
+  = Ok (fname_prefix (new_token_required_nl id desc text fn pos)
+          (p ++ k_syntax_error ++ k_colon_sp ++ desc ++ k_expected)).
+Proof.
+  unfold format_error, err_context, new_token_required_nl. cbn [e_ctx scanner_error_context bind token_required_context truthy].
+  unfold err_filename, fname_prefix, fname_text. cbn [e_fn e_kind e_msg err_str app].
+  destruct fn as [|[|a f]|b]; cbn [fname_of bind truthy join map app]; try reflexivity.
+  destruct (utf8_replace b) as [|a f]; reflexivity.
 Qed.
